@@ -44,7 +44,7 @@ fn hll_expected_len(m: &HllModel, ty: u8) -> usize {
     }
 }
 
-fn hll_sizes(c: &c02::Case, info: &mut CaseInfo) -> Result<(), Fail> {
+pub fn hll_sizes(c: &c02::Case, info: &mut CaseInfo) -> Result<(), Fail> {
     let lg_k = c.lg_k;
     let mut m = HllModel::new(lg_k);
     let mut sks: Vec<HllSketch> = c02::TYPES.iter().map(|&t| HllSketch::new(lg_k, t)).collect();
@@ -91,7 +91,7 @@ fn hll_sizes(c: &c02::Case, info: &mut CaseInfo) -> Result<(), Fail> {
     Ok(())
 }
 
-fn hll_case() -> impl Strategy<Value = c02::Case> {
+pub fn hll_case() -> impl Strategy<Value = c02::Case> {
     (prop_oneof![6 => 4u8..=10, 3 => 11u8..=14, 1 => Just(21u8)], any::<u64>()).prop_flat_map(|(lg_k, perm_seed)| {
         let heavy = lg_k <= 12;
         proptest::collection::vec(c02::op_strategy(heavy), 0..(if lg_k >= 15 { 30 } else { 800 }))
@@ -111,7 +111,7 @@ pub struct ThetaCase {
     pub trim_after: Vec<bool>,
 }
 
-fn theta_case() -> impl Strategy<Value = ThetaCase> {
+pub fn theta_case() -> impl Strategy<Value = ThetaCase> {
     (
         5u8..=12,
         0u8..4,
@@ -122,7 +122,7 @@ fn theta_case() -> impl Strategy<Value = ThetaCase> {
         .prop_map(|(lg_k, rf, p, bursts, trim_after)| ThetaCase { lg_k, rf, p, bursts, trim_after })
 }
 
-fn theta_sizes(c: &ThetaCase, info: &mut CaseInfo) -> Result<(), Fail> {
+pub fn theta_sizes(c: &ThetaCase, info: &mut CaseInfo) -> Result<(), Fail> {
     let p = c04::p_of(c.p);
     let k = 1usize << c.lg_k;
     let cap = 2 * k * 15 / 16;
@@ -195,7 +195,7 @@ pub struct MiscCase {
     pub seed: u64,
 }
 
-fn misc_case() -> impl Strategy<Value = MiscCase> {
+pub fn misc_case() -> impl Strategy<Value = MiscCase> {
     (3u8..=11, any::<bool>(), 1u64..=70_000, 1u16..=16, 1u8..=8, 3u32..=512, 10u16..=500, 1u32..=60_000, 0u8..3, any::<u64>())
         .prop_map(|(fi_lg, fi_strings, bloom_bits, bloom_hashes, cm_hashes, cm_buckets, td_k, n, shape, seed)| MiscCase {
             fi_lg,
@@ -211,7 +211,7 @@ fn misc_case() -> impl Strategy<Value = MiscCase> {
         })
 }
 
-fn misc_sizes(c: &MiscCase, info: &mut CaseInfo) -> Result<(), Fail> {
+pub fn misc_sizes(c: &MiscCase, info: &mut CaseInfo) -> Result<(), Fail> {
     let mut sm = SplitMix(c.seed);
     let mut fi_u: FrequentItemsSketch<u64> = FrequentItemsSketch::new(1usize << c.fi_lg);
     let mut fi_s: FrequentItemsSketch<String> = FrequentItemsSketch::new(1usize << c.fi_lg);
